@@ -999,7 +999,11 @@ pub fn main(args: &Args) {
         "run" => sessions_run(&mut rng, n),
         "tiny" => sessions_tiny(&mut rng, n, args.flag("exhaustive")),
         "debug" => sessions_debug(&mut rng, n, per, args.get("focus").unwrap_or("mixed")),
-        "scenario" => sessions_scenario(&mut rng),
+        "scenario" => {
+            // --only <program>: just the scenarios of that program
+            let only = args.get("only").map(|s| s.to_string());
+            sessions_scenario(&mut rng).into_iter().filter(|s| only.as_ref().map(|o| s.id.split(':').nth(1) == Some(o.as_str())).unwrap_or(true)).collect()
+        }
         "view" => sessions_view(&mut rng, n),
         "replay" => sessions_replay(&mut rng, args.req("in")),
         "enum" => sessions_enum(&mut rng, args.num("len", 2) as usize, args.num("stride", 1) as usize, args.num("phase", 0) as usize),
